@@ -105,6 +105,49 @@ impl<R: Registry> Archetypes<R> {
     { unimplemented!() }
 }
 
+/// `c` is a value copy of table `t` under key `k2` (C10): same identifiers, same rows, same
+/// component set
+pub open spec fn vx_table_copy<R: Registry>(c: archetype::Archetype<R>, t: archetype::Archetype<R>, k2: archetype::IdentifierRef<R>) -> bool {
+    c.wf() && c.key() == k2 && c.length == t.length && c.ids() == t.ids() && c.rows() == t.rows() && vx_key_bits(k2) == vx_key_bits(t.key())
+}
+/// the old-key -> new-key map returned by Archetypes::clone / clone_from
+pub open spec fn vx_is_key_map<R: Registry>(
+    map: IMap<archetype::IdentifierRef<R>, archetype::IdentifierRef<R>>,
+    src: IMap<archetype::IdentifierRef<R>, archetype::Archetype<R>>,
+    dst: IMap<archetype::IdentifierRef<R>, archetype::Archetype<R>>) -> bool {
+    &&& forall|k: archetype::IdentifierRef<R>| src.dom().contains(k) ==>
+            #[trigger] map.dom().contains(k) && dst.dom().contains(map[k]) && vx_table_copy(dst[map[k]], src[k], map[k])
+    &&& forall|k1: archetype::IdentifierRef<R>, k2: archetype::IdentifierRef<R>|
+            src.dom().contains(k1) && src.dom().contains(k2) && #[trigger] map[k1] == #[trigger] map[k2] ==> k1 == k2
+    &&& forall|k2: archetype::IdentifierRef<R>| #[trigger] dst.dom().contains(k2) ==>
+            dst[k2].wf() && dst[k2].key() == k2 &&
+            ((exists|k: archetype::IdentifierRef<R>| src.dom().contains(k) && map[k] == k2) || dst[k2].length == 0)
+}
+
+impl<R: Registry> Archetypes<R> {
+    /// A3 (assumed): clones every table under a fresh key and returns the key map
+    #[verifier::external_body]
+    pub unsafe fn clone(&self) -> (r: (Self, HashMap<archetype::IdentifierRef<R>, archetype::IdentifierRef<R>, FnvBuildHasher>))
+        requires vx_single_table(self@),
+        ensures vx_is_key_map(r.1@, self@, r.0@), vx_single_table(r.0@),
+    { unimplemented!() }
+    /// A3 (assumed): makes `self` hold a copy of every table of `source` (reusing the table with
+    /// the same component set where there is one) and clears every other table
+    #[verifier::external_body]
+    pub unsafe fn clone_from(&mut self, source: &Self) -> (r: HashMap<archetype::IdentifierRef<R>, archetype::IdentifierRef<R>, FnvBuildHasher>)
+        requires vx_single_table(old(self)@), vx_single_table(source@),
+        ensures vx_is_key_map(r@, source@, final(self)@), vx_single_table(final(self)@),
+    { unimplemented!() }
+}
+
+/// A8 (assumed): the user's `Clone` for the resource list is a faithful copy
+#[verifier::external_body]
+pub fn vx_clone<T>(x: &T) -> (r: T) ensures r == *x { unimplemented!() }
+#[verifier::external_body]
+pub fn vx_clone_from<T>(dst: &mut T, src: &T) ensures *final(dst) == *src { unimplemented!() }
+#[verifier::external_body]
+pub fn vx_default<T>() -> (r: T) { unimplemented!() }
+
 /// identifier `i` is attached to some stored row
 pub open spec fn vx_stored<R: Registry>(m: IMap<archetype::IdentifierRef<R>, archetype::Archetype<R>>, i: entity::Identifier) -> bool {
     exists|k: archetype::IdentifierRef<R>, r: int| m.dom().contains(k) && 0 <= r < m[k].length && #[trigger] m[k].ids()[r] == i
@@ -481,6 +524,62 @@ RESERVE_PROOF = r'''proof {
         }'''
 
 
+COVER_PROOF = r'''proof {
+            let a0 = SRC.entity_allocator;
+            let m0 = SRC.archetypes@;
+            a0.lemma_slots_len_fits();
+            assert forall|s: int| 0 <= s < a0.slots@.len() && (#[trigger] a0.slots@[s]).location is Some
+                implies identifier_map@.dom().contains(a0.slots@[s].location->0.identifier) by {
+                let i = entity::Identifier { index: s as usize, generation: a0.slots@[s].generation };
+                assert(a0.resolves(i));
+                assert(m0.dom().contains(a0.view()[i].identifier));
+            }
+        }'''
+
+CLONE_PROOF = r'''proof {
+            let a0 = SRC.entity_allocator;
+            let a1 = DST.entity_allocator;
+            let m0 = SRC.archetypes@;
+            let m1 = DST.archetypes@;
+            let map = identifier_map@;
+            // the key map covers every archetype a source slot refers to (safety precondition of Allocator::clone*)
+            a1.lemma_remapped_copy_wf(&a0, map);
+            lemma_count_same_activity(a1.slots@, a0.slots@);
+            assert forall|i: entity::Identifier| a1.resolves(i) implies a0.resolves(i)
+                && a1.view()[i] == (Location { identifier: map[a0.view()[i].identifier], index: a0.view()[i].index }) by { }
+            // W1
+            assert forall|k2: archetype::IdentifierRef<Registry>| m1.dom().contains(k2) implies
+                (#[trigger] m1[k2]).wf() && m1[k2].key() == k2 && m1[k2].agrees(&a1) by {
+                if exists|k: archetype::IdentifierRef<Registry>| m0.dom().contains(k) && map[k] == k2 {
+                    let k = choose|k: archetype::IdentifierRef<Registry>| m0.dom().contains(k) && map[k] == k2;
+                    assert(map.dom().contains(k));
+                    assert(m0[k].agrees(&a0));
+                    assert forall|r: int| 0 <= r < m1[k2].length implies a1.resolves(#[trigger] m1[k2].ids()[r])
+                        && a1.view()[m1[k2].ids()[r]] == (Location { identifier: m1[k2].key(), index: r as usize }) by {
+                        assert(a0.resolves(m0[k].ids()[r]));
+                    }
+                }
+            }
+            // W2
+            assert forall|i: entity::Identifier| a1.resolves(i) implies ({
+                let l = #[trigger] a1.view()[i];
+                m1.dom().contains(l.identifier) && l.index < m1[l.identifier].length && m1[l.identifier].ids()[l.index as int] == i
+            }) by {
+                let l0 = a0.view()[i];
+                assert(m0.dom().contains(l0.identifier));
+                assert(map.dom().contains(l0.identifier));
+            }
+            assert(DST.view() =~= SRC.view()) by {
+                assert forall|i: entity::Identifier| DST.view().dom().contains(i) implies #[trigger] DST.view()[i] == SRC.view()[i] by {
+                    let l0 = a0.view()[i];
+                    assert(m0.dom().contains(l0.identifier));
+                    assert(map.dom().contains(l0.identifier));
+                    assert(m0[l0.identifier].key() == l0.identifier);
+                }
+            }
+        }'''
+
+
 def build():
     u = arch.build()
     u.name = "world"
@@ -502,9 +601,6 @@ def build():
     ])
     u.impl("impl<Registry, Resources> World<Registry, Resources> where Registry: crate::Registry", [
         Fn(W, WIMPL, "from_raw_parts", ret="r",
-           rewrites=[(r"Registry::assert_no_duplicates\(&mut HashSet::with_capacity_and_hasher\(\s*Registry::LEN,\s*FnvBuildHasher::default\(\),\s*\)\);",
-                      "vx_assert_no_duplicates::<Registry>();",
-                      "R6/A4: the duplicate-component assertion (hashbrown HashSet of TypeIds) is an assumed-contract call")],
            ensures=[("C18.no_duplicates_checked", "vx_no_duplicates::<Registry>()"),
                     ("world.from_raw_parts", "r.archetypes == archetypes && r.entity_allocator == entity_allocator && r.len == len && r.resources == resources")],
            props=["C18"]),
@@ -516,7 +612,7 @@ def build():
         Fn(W, WIMPL, "insert", ret="id", generics="<Entity, Indices>", where="",
            rewrites=[(r"\.get_mut_or_insert_new_for_entity::<.*?>\(\)", ".vx_get_mut_or_insert_new_for_entity(Ghost(vx_bits_of::<Entity>()))",
                       "R8: type-level selection of the archetype (turbofish of canonical entity type) replaced by its abstract component set"),
-                     (r"Registry::canonical\(entity\)", "vx_canonical(entity)", "R6: canonical reordering is an assumed-contract call (K-bits)")],
+                     ],
            requires=PRE + [("pre.A5_len", "old(self).len < usize::MAX"),
                            ("pre.A5_table_len", "forall|k: archetype::IdentifierRef<Registry>| old(self).archetypes@.dom().contains(k) ==> (#[trigger] old(self).archetypes@[k]).length < usize::MAX")],
            ensures=WF + FRAME + [
@@ -531,7 +627,7 @@ def build():
         Fn(W, WIMPL, "extend", ret="ids", generics="<Entities, Indices>", where="",
            rewrites=[(r"\.get_mut_or_insert_new_for_entity::<.*?>\(\)", ".vx_get_mut_or_insert_new_for_entity(Ghost(vx_bits_of::<Entities>()))",
                       "R8: type-level selection of the archetype replaced by its abstract component set"),
-                     (r"Registry::canonical\(entities\.entities\)", "vx_canonical_batch(entities.entities)", "R6: canonical reordering is an assumed-contract call")],
+                     ],
            requires=PRE + [("pre.batch_wf", "entities.wf()"),
                            ("pre.A5_len", "old(self).len + entities.len <= usize::MAX"),
                            ("pre.A5_slots", "old(self).entity_allocator.slots@.len() + entities.len <= usize::MAX"),
@@ -558,7 +654,7 @@ def build():
            ],
            hints=[Hint("start", "let ghost vx_w0 = *self; proof { lemma_count_bound(self.entity_allocator.slots@); }"),
                   Hint("before", "let ghost vx_mid = *self;", anchor=r"unsafe \{\s*self\.entity_allocator\.free_unchecked\(entity_identifier\)"),
-                  Hint("after", REMOVE_PROOF, anchor=r"self\.len -= 1"),
+                  Hint("after", REMOVE_PROOF, anchor=r"self\.entity_allocator\.free_unchecked\(entity_identifier\)"),
                   Hint("end", "proof { if !vx_w0.entity_allocator.resolves(entity_identifier) { assert(self.view() =~= vx_w0.view().remove(entity_identifier)); } }")],
            props=["C01", "C02", "C13", "C15"]),
         Fn(W, WIMPL, "clear",
@@ -597,12 +693,50 @@ def build():
         Fn(W, WIMPL, "len", ret="n", ensures=[("C01.len", "n == self.len")], props=["C01", "C13"]),
         Fn(W, WIMPL, "is_empty", ret="b", ensures=[("C01.is_empty", "b == (self.len == 0)")], props=["C01"]),
     ])
+    WC = "src/world/impl_clone.rs"
+    CLONE_ENS = lambda res, src: [
+        ("C10.clone.alloc_wf", f"{res}.entity_allocator.wf()"),
+        ("C10.clone.tables", f"vx_tables_ok({res}.archetypes@, &{res}.entity_allocator)"),
+        ("C10.clone.ids_stored", f"vx_ids_stored({res}.archetypes@, &{res}.entity_allocator)"),
+        ("C10.clone.single_table", f"vx_single_table({res}.archetypes@)"),
+        ("C10.clone.len", f"{res}.len == {res}.entity_allocator.active_count() && {res}.len == {src}.len"),
+        ("C10.clone.view", f"{res}.view() == {src}.view()"),
+        ("C15.clone.resources", f"{res}.resources == {src}.resources"),
+    ]
+    u.impl("impl<Registry, Resources> World<Registry, Resources> where Registry: crate::Registry", [
+        Fn(WC, r"^impl<Registry, Resources> Clone for World<Registry, Resources>", "clone", ret="r", vis="pub",
+           rewrites=[(r"self\.resources\.clone\(\)", "vx_clone(&self.resources)", "A8: user Clone of the resource list is an assumed faithful copy")],
+           requires=[("pre.world_wf", "self.wf()")],
+           ensures=CLONE_ENS("r", "self") + [("C18.clone_keeps_check", "vx_no_duplicates::<Registry>()")],
+           hints=[Hint("after", COVER_PROOF.replace("SRC", "self"), anchor=r"self\.archetypes\.clone\(\)"),
+                  Hint("end", CLONE_PROOF.replace("DST", "vx_r").replace("SRC", "self"))],
+           bind_tail=True,
+           props=["C10", "C13", "C15", "C02", "C01"]),
+        Fn(WC, r"^impl<Registry, Resources> Clone for World<Registry, Resources>", "clone_from", vis="pub",
+           rewrites=[(r"self\.resources\.clone_from\(&source\.resources\);", "vx_clone_from(&mut self.resources, &source.resources);", "A8: user Clone of the resource list is an assumed faithful copy")],
+           requires=[("pre.world_wf", "old(self).wf()"), ("pre.source_wf", "source.wf()")],
+           ensures=CLONE_ENS("final(self)", "source"),
+           hints=[Hint("after", COVER_PROOF.replace("SRC", "source"), anchor=r"self\.archetypes\.clone_from\(&source\.archetypes\)"),
+                  Hint("end", CLONE_PROOF.replace("DST", "self").replace("SRC", "source"))],
+           props=["C10", "C13", "C15", "C02", "C01"]),
+    ])
+    u.impl("impl<Registry, Resources> World<Registry, Resources> where Registry: crate::Registry", [
+        Fn(WD, r"^impl<Registry, Resources> Default for World<Registry, Resources>", "default", ret="r", vis="pub", emit_name="default",
+           rewrites=[(r"Resources::default\(\)", "vx_default::<Resources>()", "generic Default of the resource list is an external call")],
+           ensures=[("C18.default_checked", "r.wf()"), ("C01.new_empty", "r.len == 0")],
+           props=["C18", "C01"]),
+    ])
     u.text(WORLD_LEMMAS)
     u.type_rewrites += [
         (r"\bregistry::Registry\b", "crate::Registry", "path of the Registry trait"),
         (r"\bself::Entities\b", "crate::EntitiesMarker", "path"),
     ]
     u.pre_rewrites += [
+        (r"Registry::assert_no_duplicates\(&mut HashSet::with_capacity_and_hasher\(\s*Registry::LEN,\s*FnvBuildHasher::default\(\),\s*\)\);",
+         "vx_assert_no_duplicates::<Registry>();",
+         "R6/A4: the duplicate-component assertion (hashbrown HashSet of TypeIds) is an assumed-contract call, wherever it appears"),
+        (r"Registry::canonical\(entity\)", "vx_canonical(entity)", "R6: canonical reordering is an assumed-contract call (K-bits)"),
+        (r"Registry::canonical\(entities\.entities\)", "vx_canonical_batch(entities.entities)", "R6: canonical reordering is an assumed-contract call"),
         (r"\barchetypes\s*\.get_unchecked_mut\(", "archetypes.vx_get_unchecked_mut(",
          "R7: Archetypes::get_unchecked_mut is a method of the external table type, not slice::get_unchecked_mut"),
     ]
